@@ -455,6 +455,9 @@ impl<F: PrimeField> RefCS<F> {
         if l.values().any(|c| c.is_zero()) {
             self.probe("zero-coefficient-term");
         }
+        if l.keys().any(|k| !self.vk_ok(k)) {
+            self.probe("forward-reference-in-constraint");
+        }
         self.cons.push(l);
     }
 
